@@ -54,21 +54,30 @@ Proof.
 Qed.
 
 (* ------------------------------------------------------------------ frame: each operation, then any sequence *)
-Lemma mstep_extends fx d r s o : extends (fst s) (fst (fst (mstep_gen fx d r s o))).
+Lemma mstep_extends fx fe d r s o : fe = true \/ is_derive_edit o = false -> extends (fst s) (fst (fst (mstep_gen fx fe d r s o))).
 Proof.
-  destruct s as [h b]. destruct o; cbn; try apply extends_refl; try apply deepcopy_heap_extends; try apply extends_app.
-  destruct (lookup h r) as [[| |ch es0]|]; cbn; try apply extends_refl. apply extends_app.
+  intros G. destruct s as [h b]. destruct o; cbn; try apply extends_refl; try apply deepcopy_heap_extends; try apply extends_app.
+  - destruct (lookup h r) as [[| |ch es0]|]; cbn; try apply extends_refl. apply extends_app.
+  - destruct G as [->|G]; [|discriminate]. destruct (lookup h r) as [[| |ch es0]|]; cbn; try apply extends_refl.
+    destruct (edges_update es0 s t upd); cbn; apply extends_app.
 Qed.
-Lemma mrun_extends fx d r : forall ops s, extends (fst s) (fst (fst (mrun_gen fx d r s ops))).
+Lemma mrun_extends fx fe d r : forall ops s, fe = true \/ no_derive_edit ops = true ->
+  extends (fst s) (fst (fst (mrun_gen fx fe d r s ops))).
 Proof.
-  induction ops as [|o ops IH]; intros s; cbn; [apply extends_refl|].
-  pose proof (mstep_extends fx d r s o) as H1. destruct (mstep_gen fx d r s o) as [s1 out]. cbn in H1.
-  pose proof (IH s1) as H2. destruct (mrun_gen fx d r s1 ops) as [s2 outs]. cbn in *. eapply extends_trans; eauto.
+  induction ops as [|o ops IH]; intros s G; cbn; [apply extends_refl|].
+  assert (G1 : fe = true \/ is_derive_edit o = false /\ no_derive_edit ops = true).
+  { destruct G as [G|G]; [now left|right]. unfold no_derive_edit in *. cbn in G. apply negb_true_iff in G.
+    apply orb_false_iff in G as [G1 G2]. split; [assumption|now rewrite G2]. }
+  assert (Ho : fe = true \/ is_derive_edit o = false) by tauto. assert (Hr : fe = true \/ no_derive_edit ops = true) by tauto.
+  pose proof (mstep_extends fx fe d r s o Ho) as H1. destruct (mstep_gen fx fe d r s o) as [s1 out]. cbn in H1.
+  pose proof (IH s1 Hr) as H2. destruct (mrun_gen fx fe d r s1 ops) as [s2 outs]. cbn in *. eapply extends_trans; eauto.
 Qed.
-Theorem frame_step fx d r s o : forall d' c t, abs d' (fst s) c = Some t -> abs d' (fst (fst (mstep_gen fx d r s o))) c = Some t.
-Proof. intros. eapply abs_extends; eauto. apply mstep_extends. Qed.
-Theorem frame_sequence fx d r ops s : forall d' c t, abs d' (fst s) c = Some t -> abs d' (fst (fst (mrun_gen fx d r s ops))) c = Some t.
-Proof. intros. eapply abs_extends; eauto. apply mrun_extends. Qed.
+Theorem frame_step fx fe d r s o : fe = true \/ is_derive_edit o = false ->
+  forall d' c t, abs d' (fst s) c = Some t -> abs d' (fst (fst (mstep_gen fx fe d r s o))) c = Some t.
+Proof. intros. eapply abs_extends; eauto. now apply mstep_extends. Qed.
+Theorem frame_sequence fx fe d r ops s : fe = true \/ no_derive_edit ops = true ->
+  forall d' c t, abs d' (fst s) c = Some t -> abs d' (fst (fst (mrun_gen fx fe d r s ops))) c = Some t.
+Proof. intros. eapply abs_extends; eauto. now apply mrun_extends. Qed.
 
 (* ------------------------------------------------------------------ outputs *)
 Lemma abs_root_edges d h r t : abs d h r = Some t -> exists ch, lookup h r = Some (OCirc ch (root_edges t)).
@@ -88,79 +97,48 @@ Proof.
   - destruct (abs_root_edges _ _ _ _ H) as (ch & ->). reflexivity.
 Qed.
 
-(* the bookkeeping reached along a guard-satisfying prefix *)
-Definition book_rel (seen_run : bool) (seen_c : option bool) (b : book) : Prop :=
-  match seen_run, seen_c with
-  | false, None => b = book0
-  | false, Some v => b = mkBook (SDecl v) (negb v)
-  | true, None => si b = false
-  | true, Some _ => False
-  end.
-
-Lemma outputs_refine d r t : forall ops h b sr sc, abs d h r = Some t -> book_rel sr sc b -> carry_free sr sc ops = true ->
-  snd (mrun_gen false d r (h, b) ops) = map (mstepS d t) ops.
+(* ------------------------------------------------------------------ since fix D74 (bookkeeping on the deep copy) the
+   bookkeeping of `self` never changes: every operation of every sequence returns what the unchanged denotation says
+   (sequences without derive-and-edit, or all sequences once the edge dictionaries are no longer shared) *)
+Lemma first_edge_update es s t upd : match edges_update es s t upd with Some _ => first_edge es s t <> None | None => first_edge es s t = None end.
 Proof.
-  induction ops as [|o ops IH]; intros h b sr sc H R G; [reflexivity|].
-  cbn [mrun_gen map].
+  induction es as [|[[s' t'] a] es IH]; cbn; [reflexivity|]. destruct (String.eqb s s' && String.eqb t t'); [discriminate|].
+  destruct (edges_update es s t upd); assumption.
+Qed.
+Lemma outputs_refine_fixed fe d r t : forall ops h, abs d h r = Some t -> fe = true \/ no_derive_edit ops = true ->
+  snd (mrun_gen true fe d r (h, book0) ops) = map (mstepS d t) ops.
+Proof.
+  induction ops as [|o ops IH]; intros h H G; [reflexivity|]. cbn [mrun_gen map].
+  assert (G1 : fe = true \/ is_derive_edit o = false /\ no_derive_edit ops = true).
+  { destruct G as [G|G]; [now left|right]. unfold no_derive_edit in *. cbn in G. apply negb_true_iff in G.
+    apply orb_false_iff in G as [G1 G2]. split; [assumption|now rewrite G2]. }
+  assert (Hr : fe = true \/ no_derive_edit ops = true) by tauto.
   assert (Hd : abs d (deepcopy_heap d r h) r = Some t) by (eapply abs_extends; eauto; apply deepcopy_heap_extends).
-  destruct o as [q| | |es|o|jac vec|vec|]; cbn [mstep_gen carry_free] in *.
-  - specialize (IH h b sr sc H R G). destruct (mrun_gen false d r (h, b) ops). cbn in *. rewrite IH. now rewrite (read_equiv d r h t q H).
-  - specialize (IH h b sr sc H R G). destruct (mrun_gen false d r (h, b) ops). cbn in *. now rewrite IH.
-  - specialize (IH _ b sr sc Hd R G). destruct (mrun_gen false d r (deepcopy_heap d r h, b) ops). cbn in *. now rewrite IH.
+  destruct o as [q| | |es|sv tv upd|o|jac vec|vec|]; cbn [mstep_gen].
+  - specialize (IH h H Hr). destruct (mrun_gen true fe d r (h, book0) ops). cbn in *. rewrite IH. now rewrite (read_equiv d r h t q H).
+  - specialize (IH h H Hr). destruct (mrun_gen true fe d r (h, book0) ops). cbn in *. now rewrite IH.
+  - specialize (IH _ Hd Hr). destruct (mrun_gen true fe d r (deepcopy_heap d r h, book0) ops). cbn in *. now rewrite IH.
   - destruct (abs_root_edges _ _ _ _ H) as (ch & E). rewrite E. cbn iota beta.
     assert (He : abs d (h ++ [OCirc ch (root_edges t ++ es)]) r = Some t) by (eapply abs_extends; [exact H|apply extends_app]).
-    specialize (IH _ b sr sc He R G). unfold heap in *. match goal with |- context [mrun_gen ?f ?a ?b ?c ?e] => destruct (mrun_gen f a b c e) eqn:Em end. try rewrite Em in IH. cbn in *. now rewrite IH.
-  - assert (He : abs d (h ++ [o]) r = Some t) by (eapply abs_extends; [exact H|apply extends_app]).
-    specialize (IH _ b sr sc He R G). unfold heap in *. match goal with |- context [mrun_gen ?f ?a ?b ?c ?e] => destruct (mrun_gen f a b c e) eqn:Em end.
+    specialize (IH _ He Hr). unfold heap in *. match goal with |- context [mrun_gen ?f ?g ?a ?b ?c ?e] => destruct (mrun_gen f g a b c e) eqn:Em end.
     try rewrite Em in IH. cbn in *. now rewrite IH.
-  - apply andb_true_iff in G as [G G3]. apply andb_true_iff in G as [G1 G2]. apply negb_true_iff in G1. subst sr.
-    assert (Ho : compile_out b vec = YDeclared /\ book_rel false (Some vec) (compile_book b vec)).
-    { destruct sc as [v'|]; cbn in R; subst b.
-      - apply eqb_prop in G2 as ->. unfold compile_book, compile_out. cbn. rewrite eqb_reflx. cbn. destruct vec; cbn; auto.
-      - unfold compile_book, compile_out. cbn. auto. }
-    destruct Ho as (Ho & R'). rewrite Ho. specialize (IH _ _ false (Some vec) Hd R' G3).
-    destruct (mrun_gen false d r (deepcopy_heap d r h, compile_book b vec) ops). cbn in *. now rewrite IH.
-  - apply andb_true_iff in G as [G1 G2]. destruct sc; [discriminate|].
-    assert (Hs : si b = false) by (destruct sr; cbn in R; [assumption|now subst b]).
-    assert (R' : book_rel true None (run_book b vec)) by (unfold run_book; rewrite Hs; reflexivity).
-    rewrite Hs. specialize (IH _ _ true None Hd R' G2).
-    destruct (mrun_gen false d r (deepcopy_heap d r h, run_book b vec) ops). cbn in *. now rewrite IH.
-  - specialize (IH _ b sr sc Hd R G). destruct (mrun_gen false d r (deepcopy_heap d r h, b) ops). cbn in *. rewrite IH.
+  - assert (fe = true) as -> by (destruct G1 as [?|[? _]]; [assumption|discriminate]).
+    destruct (abs_root_edges _ _ _ _ H) as (ch & E). rewrite E. cbn iota beta.
+    assert (He : abs d (h ++ [OCirc ch (root_edges t)]) r = Some t) by (eapply abs_extends; [exact H|apply extends_app]).
+    specialize (IH _ He Hr). pose proof (first_edge_update (root_edges t) sv tv upd) as FE.
+    destruct (edges_update (root_edges t) sv tv upd); unfold heap in *;
+      match goal with |- context [mrun_gen ?f ?g ?a ?b ?c ?e] => destruct (mrun_gen f g a b c e) eqn:Em end;
+      try rewrite Em in IH; cbn in *; rewrite IH; destruct (first_edge (root_edges t) sv tv); congruence.
+  - assert (He : abs d (h ++ [o]) r = Some t) by (eapply abs_extends; [exact H|apply extends_app]).
+    specialize (IH _ He Hr). unfold heap in *. match goal with |- context [mrun_gen ?f ?g ?a ?b ?c ?e] => destruct (mrun_gen f g a b c e) eqn:Em end.
+    try rewrite Em in IH. cbn in *. now rewrite IH.
+  - specialize (IH _ Hd Hr). destruct (mrun_gen true fe d r (deepcopy_heap d r h, book0) ops). cbn in *. now rewrite IH.
+  - specialize (IH _ Hd Hr). destruct (mrun_gen true fe d r (deepcopy_heap d r h, book0) ops). cbn in *. now rewrite IH.
+  - specialize (IH _ Hd Hr). destruct (mrun_gen true fe d r (deepcopy_heap d r h, book0) ops). cbn in *. rewrite IH.
     now rewrite (observe_equiv d r h t [] [] H).
 Qed.
-Theorem outputs_refine_guard d r t ops h : abs d h r = Some t -> no_state_carry ops = true ->
-  snd (mrun_gen false d r (h, book0) ops) = map (mstepS d t) ops.
-Proof. intros H G. eapply outputs_refine; eauto. reflexivity. Qed.
-
-(* run(in_place=False) never reads the bookkeeping values: any number of runs (and reads / copies) give the Spec's results *)
-Fixpoint only_runs_and_reads (ops : list mop) : bool :=
-  match ops with [] => true | MCompile _ _ :: _ => false | _ :: r => only_runs_and_reads r end.
-Lemma only_runs_carry_free : forall ops sr, only_runs_and_reads ops = true -> carry_free sr None ops = true.
-Proof. induction ops as [|o ops IH]; intros sr H; [reflexivity|]. destruct o; cbn in *; try discriminate; auto. Qed.
-Corollary repeated_runs_identical d r t ops h : abs d h r = Some t -> only_runs_and_reads ops = true ->
-  snd (mrun_gen false d r (h, book0) ops) = map (mstepS d t) ops.
-Proof. intros H G. apply outputs_refine_guard; [assumption|]. now apply only_runs_carry_free. Qed.
-
-(* ------------------------------------------------------------------ with the proposed repair (bookkeeping on the deep copy)
-   the bookkeeping of `self` never changes, and the full statement holds for every sequence *)
-Lemma outputs_refine_fixed d r t : forall ops h, abs d h r = Some t ->
-  snd (mrun_gen true d r (h, book0) ops) = map (mstepS d t) ops.
-Proof.
-  induction ops as [|o ops IH]; intros h H; [reflexivity|]. cbn [mrun_gen map].
-  assert (Hd : abs d (deepcopy_heap d r h) r = Some t) by (eapply abs_extends; eauto; apply deepcopy_heap_extends).
-  destruct o as [q| | |es|o|jac vec|vec|]; cbn [mstep_gen].
-  - specialize (IH h H). destruct (mrun_gen true d r (h, book0) ops). cbn in *. rewrite IH. now rewrite (read_equiv d r h t q H).
-  - specialize (IH h H). destruct (mrun_gen true d r (h, book0) ops). cbn in *. now rewrite IH.
-  - specialize (IH _ Hd). destruct (mrun_gen true d r (deepcopy_heap d r h, book0) ops). cbn in *. now rewrite IH.
-  - destruct (abs_root_edges _ _ _ _ H) as (ch & E). rewrite E. cbn iota beta.
-    assert (He : abs d (h ++ [OCirc ch (root_edges t ++ es)]) r = Some t) by (eapply abs_extends; [exact H|apply extends_app]).
-    specialize (IH _ He). unfold heap in *. match goal with |- context [mrun_gen ?f ?a ?b ?c ?e] => destruct (mrun_gen f a b c e) eqn:Em end.
-    try rewrite Em in IH. cbn in *. now rewrite IH.
-  - assert (He : abs d (h ++ [o]) r = Some t) by (eapply abs_extends; [exact H|apply extends_app]).
-    specialize (IH _ He). unfold heap in *. match goal with |- context [mrun_gen ?f ?a ?b ?c ?e] => destruct (mrun_gen f a b c e) eqn:Em end.
-    try rewrite Em in IH. cbn in *. now rewrite IH.
-  - specialize (IH _ Hd). destruct (mrun_gen true d r (deepcopy_heap d r h, book0) ops). cbn in *. now rewrite IH.
-  - specialize (IH _ Hd). destruct (mrun_gen true d r (deepcopy_heap d r h, book0) ops). cbn in *. now rewrite IH.
-  - specialize (IH _ Hd). destruct (mrun_gen true d r (deepcopy_heap d r h, book0) ops). cbn in *. rewrite IH.
-    now rewrite (observe_equiv d r h t [] [] H).
-Qed.
+Corollary outputs_refine_now d r t ops h : abs d h r = Some t -> no_derive_edit ops = true ->
+  snd (mrun d r (h, book0) ops) = map (mstepS d t) ops.
+Proof. intros H G. apply (outputs_refine_fixed fixed_shared_edge_dicts d r t ops h H). now right. Qed.
+Corollary outputs_refine_all d r t ops h : abs d h r = Some t -> snd (mrun_gen true true d r (h, book0) ops) = map (mstepS d t) ops.
+Proof. intros H. apply (outputs_refine_fixed true d r t ops h H). now left. Qed.
